@@ -73,6 +73,14 @@ Schema(
 )
 Schema("GeneratorParam", fields={"name": "str", "mandatory": "bool"})
 
+# Arpeggio parse tree (T-ARP): a NonTerminal is a list of child nodes; position_end is a
+# read-only property (modelled as a field); rule is the ParsingExpression that matched
+Schema("ParsingExpression", fields={"rule_name": "str", "root": "bool", "nodes": "list"})
+Schema("ParseTreeNode", fields={"rule": "obj:ParsingExpression", "rule_name": "str", "position": "int",
+                                "position_end": "int"})
+Schema("NonTerminal", bases=("ParseTreeNode", "list"), fields={})
+Schema("Terminal", bases=("ParseTreeNode",), fields={"value": "str", "extra_info": "any"})
+
 # attribute names that have one type wherever textX uses them (naming invariants
 # of the code base; assumed when an object's class has no schema of its own)
 Schema(
